@@ -120,12 +120,16 @@ impl Indexable for Vec<Value> {
     }
 
     fn get(&self, index: i64) -> Result<Value, Error> {
-        let index: Result<usize, std::num::TryFromIntError> = if index >= 0 {
-            index.try_into()
+        let i: usize = if index >= 0 {
+            index.try_into().context("failed to cast index from i64")?
         } else {
-            (-index).try_into().map(|i: usize| self.len() - i)
+            // a negative index counts from the end
+            index
+                .checked_neg()
+                .and_then(|i| usize::try_from(i).ok())
+                .and_then(|i| self.len().checked_sub(i))
+                .ok_or_else(|| err_msg(format!("index out of bounds: {}", index)))?
         };
-        let i: usize = index.context("failed to cast index from i64")?;
         if i >= self.len() {
             bail!("index out of bounds: {}", i)
         }
